@@ -227,8 +227,10 @@ func c05Rules(rng *rand.Rand, dir, file string) []c05Rule {
 		{"prefix=测试|msg", func(r *rand.Rand) string { return "测试" + word(r, r.Intn(4)) }, "测试"},
 		{"suffix=.go", func(r *rand.Rand) string { return word(r, r.Intn(4)) + ".go" }, ".go"},
 		{"suffix=ab|后缀", func(r *rand.Rand) string { return word(r, r.Intn(4)) + "ab" }, "ab"},
-		{"in=(a/b/cd)", func(r *rand.Rand) string { return pick(r, "a", "b", "cd") }, "abcd/()"},
-		{"in=(1/23/4.5)|msg", func(r *rand.Rand) string { return pick(r, "1", "23", "4.5") }, "12345./"},
+		{"in=(a/b/cd)", func(r *rand.Rand) string { return pick(r, "a", "b", "cd", "a/b", "b/cd", "a/b/cd") }, "abcd/()"}, // a value that is a run of options (with their separator) is not an option
+		{"in=(1/23/4.5)|msg", func(r *rand.Rand) string { return pick(r, "1", "23", "4.5", "1/23", "23/4.5") }, "12345./"},
+		{"in=(测/试/ab)", func(r *rand.Rand) string { return pick(r, "测", "试", "ab", "测/试", "试/ab", "/", "测试") }, "测试ab/"},
+		{"include=(ab/cd)", func(r *rand.Rand) string { return pick(r, "ab", "xcdx", "b/c", "a/d", "/") }, "abcd/"},
 		{"in=(a/'/d'/'x/y')", func(r *rand.Rand) string { return pick(r, "a", "/d", "x/y") }, "a/dxy'"},
 		{"in=('f(x)'/b)", func(r *rand.Rand) string { return pick(r, "f(x)", "b") }, "f(x)b'"},
 		{"in=(:)/:(/c)|msg", func(r *rand.Rand) string { return pick(r, ":)", ":(", "c") }, ":()c"},
@@ -309,7 +311,7 @@ func ruleKeyOf(text string) string {
 func init() {
 	core.Register(&core.Prop{
 		ID: "C05",
-		Rule: "per rule text (phone, email, idcard, ip, ipv4, ipv6, year, year2month/date with 7 separators quoted and unquoted, datetime with every separator triple from {- / . : space _ empty}^3 plus 1- and 2-piece lists, int, ints with default and custom separator, float, re with escaped quote / alternation / comma / message, unique, json, prefix, suffix, in, include with quoted options, file, dir): valid members from a per-rule constructor, every kind of single-character edit of a member (delete / insert / substitute / transpose) and random strings over an alphabet with digits, letters, CJK, punctuation, quotes, tab, NUL and newline; numeric and slice inputs for in/int/ints/float/unique. " +
+		Rule: "per rule text (phone, email, idcard, ip, ipv4, ipv6, year, year2month/date with 7 separators quoted and unquoted, datetime with every separator triple from {- / . : space _ empty}^3 plus 1- and 2-piece lists, int, ints with default and custom separator, float, re with escaped quote / alternation / comma / message, unique, json, prefix, suffix, in, include with quoted options and values that are runs of options, file, dir incl. symbolic links to a file / a directory / nothing): valid members from a per-rule constructor, every kind of single-character edit of a member (delete / insert / substitute / transpose) and random strings over an alphabet with digits, letters, CJK, punctuation, quotes, tab, NUL and newline; numeric and slice inputs for in/int/ints/float/unique. " +
 			"Verdict through Var (1/8 also through Struct) compared with a hand-written three-valued recogniser (no regexp, no time.Parse). distinct = distinct (rule text, value); non-trivial = recogniser decided in/out (not 'unspecified')",
 		Shards: func(t core.Tier) int { return 16 },
 		Run:    runC05,
@@ -335,13 +337,25 @@ func init() {
 
 func runC05(c *core.Ctx) {
 	res := c.Res
-	res.Assume("unspecified (skipped and counted): IPv4-mapped IPv6 text under ipv4/ipv6, octets with leading zeros, IPv6 zones, int/ints/float strings with sign or exponent, e-mail characters from RFC 5322 atext beyond word characters, invalid UTF-8 inside JSON strings, invalid regular expressions, date separators outside {- / . : space _}, int on float kinds, float on integer kinds, symlinks")
+	res.Assume("unspecified (skipped and counted): IPv4-mapped IPv6 text under ipv4/ipv6, octets with leading zeros, IPv6 zones, int/ints/float strings with sign or exponent, e-mail characters from RFC 5322 atext beyond word characters, invalid UTF-8 inside JSON strings, invalid regular expressions, date separators outside {- / . : space _}, int on float kinds, float on integer kinds")
+	res.Assume("file / dir: a path denotes what it resolves to (symbolic links are followed, a dangling link does not exist)")
 	res.Assume("the regular-expression engine is trusted for re; only the extraction of the pattern from the rule text is under test")
 	rng := c.Rng("lang")
 	dir := filepath.Join(c.WorkDir, "tree")
 	os.MkdirAll(filepath.Join(dir, "sub"), 0o755)
 	file := filepath.Join(dir, "f.txt")
 	os.WriteFile(file, []byte("x"), 0o644)
+	// symbolic links: to a file, to a directory, dangling, and a link in a non-final path component
+	lnFile, lnDir, lnDangling := filepath.Join(dir, "ln-file"), filepath.Join(dir, "ln-dir"), filepath.Join(dir, "ln-dangling")
+	os.Symlink(file, lnFile)
+	os.Symlink(filepath.Join(dir, "sub"), lnDir)
+	os.Symlink(filepath.Join(dir, "nowhere"), lnDangling)
+	os.WriteFile(filepath.Join(dir, "sub", "g.txt"), []byte("y"), 0o644)
+	viaLink := filepath.Join(lnDir, "g.txt")
+	links := false
+	if fi, err := os.Lstat(lnDir); err == nil && fi.Mode()&os.ModeSymlink != 0 {
+		links = true
+	}
 	fsOracle := func(p string) (bool, bool, bool) {
 		switch p {
 		case file:
@@ -350,6 +364,16 @@ func runC05(c *core.Ctx) {
 			return true, true, true
 		case filepath.Join(dir, "missing"), filepath.Join(dir, "f.txt2"), file + "/x":
 			return true, false, false
+		}
+		if links {
+			switch p {
+			case lnFile, viaLink:
+				return true, true, false
+			case lnDir:
+				return true, true, true
+			case lnDangling:
+				return true, false, false
+			}
 		}
 		return false, false, false
 	}
@@ -438,8 +462,11 @@ func runC05(c *core.Ctx) {
 			}
 		}
 		if key == "file" || key == "dir" {
-			for _, p := range []string{file, dir, filepath.Join(dir, "sub"), filepath.Join(dir, "missing"), filepath.Join(dir, "f.txt2"), file + "/x"} {
+			for _, p := range []string{file, dir, filepath.Join(dir, "sub"), filepath.Join(dir, "missing"), filepath.Join(dir, "f.txt2"), file + "/x", lnFile, lnDir, lnDangling, viaLink} {
 				judge(r.Text, reflect.ValueOf(p), "member")
+				if links && (p == lnFile || p == lnDir || p == lnDangling) {
+					res.Count("symlink_paths_judged")
+				}
 			}
 		}
 	}
